@@ -285,7 +285,10 @@ class Gate:
             )
             raise NotImplementedError(error_str)
 
-        if self.classical_controls:
+        if (
+            self.classical_controls is not None
+            and len(self.classical_controls) > 0
+        ):
             err_msg = "Exporting controlled gates is not implemented yet."
             raise NotImplementedError(err_msg)
         else:
